@@ -58,9 +58,17 @@ INLINE_CODE_SPAN = AtomicPattern(
 
 # Markdown links: [text](url) or [text][ref] or [text]
 # (the text may hold one level of brackets, as in `[see [1] for details](url)`)
+# A destination may hold one level of parentheses, as in `.../wiki/Foo_(bar)`, or be in
+# angle brackets, and may be followed by a title; anything else in parentheses is taken
+# up to the first `)` as before.
+_LINK_DEST = r"(?:<[^<>\n]*>|(?:[^\s()]|\([^\s()]*\))*)"
+_LINK_TITLE = r"""(?:"[^"]*"|'[^']*'|\([^()]*\))"""
 MARKDOWN_LINK = AtomicPattern(
     name="markdown_link",
-    pattern=r"\[(?:[^\[\]]|\[[^\[\]]*\])*\](?:\([^)]*\)|\[[^\]]*\])?",
+    pattern=(
+        r"\[(?:[^\[\]]|\[[^\[\]]*\])*\]"
+        rf"(?:\(\s*{_LINK_DEST}(?:\s+{_LINK_TITLE})?\s*\)|\([^)]*\)|\[[^\]]*\])?"
+    ),
     open_delim="",
     close_delim="",
     open_re="",
